@@ -59,7 +59,17 @@ func raTree(root string, files *ra.Files, cfgYAML string) error {
 
 // raGenerate runs generate on stdin; with hooks it also collects the event log.
 func raGenerate(env *core.Env, root, program string, trace bool) *raRun {
-	cmd := sut.Cmd{Bin: env.Bin, Args: []string{"-d", root, "regex", "generate", "-"}, Stdin: []byte(program), Dir: root}
+	args := []string{"-d", root, "regex", "generate", "-"}
+	// a log level must not change what is printed on stdout; an eighth of the programs run with one (by a hash of the text)
+	h := uint32(2166136261)
+	for i := 0; i < len(program); i++ {
+		h = (h ^ uint32(program[i])) * 16777619
+	}
+	if (h>>4)%8 == 0 {
+		lvl := []string{"trace", "debug", "info", "trace"}[(h>>8)%4]
+		args = append([][]string{{"--log-level", lvl}, {"-l", lvl}, {"--log-level=" + lvl}}[(h>>12)%3], args...)
+	}
+	cmd := sut.Cmd{Bin: env.Bin, Args: args, Stdin: []byte(program), Dir: root}
 	logf := ""
 	if trace && env.HooksOn {
 		logf = filepath.Join(filepath.Dir(root), "hook.log")
